@@ -68,6 +68,39 @@ static bool close6(double got, double want)
 	return std::fabs(got - want) <= 5.1e-6 * std::fabs(want);
 }
 
+// In a third of the cases the target file already exists: left by an earlier export of another shape (with or without header) or holding unrelated text.
+// An export replaces the file; what was there before must not show up in what is read back (seeded change C20-r2m2 appended when the header was empty).
+static void maybe_preexisting(Rng& rng, const std::string& path)
+{
+	if(!rng.coin(0.34))
+		return;
+	int kind = rng.irange(0, 2);
+	if(kind == 0)
+	{
+		std::vector<std::vector<double>> old(rng.irange(1, 6), std::vector<double>(rng.irange(1, 5), 0.0));
+		for(auto& r : old)
+			for(auto& v : r)
+				v = rng.uni(-9, 9);
+		Export_Table(path, old, {}, rng.coin() ? std::string("") : std::string("# old table"));
+	}
+	else if(kind == 1)
+	{
+		std::vector<double> old(rng.irange(1, 9));
+		for(auto& v : old)
+			v = rng.uni(-9, 9);
+		Export_List(path, old, 1.0, rng.coin() ? std::string("") : std::string("# old list"));
+	}
+	else
+	{
+		FILE* f = fopen(path.c_str(), "w");
+		if(f)
+		{
+			fputs("1.5\t2.5\t3.5\n4.5\t5.5\t6.5\n", f);
+			fclose(f);
+		}
+	}
+}
+
 static void case_table(Rng& rng, uint64_t index)
 {
 	int rows = (index % 7 == 0) ? 1 : rng.irange(1, rng.coin(0.1) ? 200 : 30), cols = 1 + (int) (index % 12);
@@ -88,6 +121,7 @@ static void case_table(Rng& rng, uint64_t index)
 	if(cols >= 2 && hl > 0 && units)
 		mark_nontrivial();
 	std::string path = scratch_file(index, "table");
+	maybe_preexisting(rng, path);
 	Export_Table(path, data, dims, header);
 	std::vector<std::vector<double>> back = Import_Table(path, dims, (unsigned) hl);
 	unlink(path.c_str());
@@ -122,6 +156,7 @@ static void case_list(Rng& rng, uint64_t index)
 	if(hl > 0 && unit != 1.0)
 		mark_nontrivial();
 	std::string path = scratch_file(index, "list");
+	maybe_preexisting(rng, path);
 	Export_List(path, data, unit, header);
 	std::vector<double> back = Import_List(path, unit, (unsigned) hl);
 	unlink(path.c_str());
@@ -151,6 +186,7 @@ static void case_function(Rng& rng, uint64_t index)
 	set_params(J().i("grid_overload", grid).vec("unit_factors", dims).i("header_lines", hl));
 	hash_param_u(index), hash_param(a), hash_param(k);
 	mark_nontrivial();
+	maybe_preexisting(rng, path);
 	if(grid)
 	{
 		double x0 = ux * rng.uni(0.1, 2), x1 = ux * rng.uni(3, 30);
